@@ -27,7 +27,7 @@ pub spec const RFC_H3_MISSING_SETTINGS: u64 = 0x10a;
 //@extract h3/src/proto/coding.rs :: - :: struct UnexpectedEnd
 //@end
 //@extract h3/src/proto/stream.rs :: - :: struct StreamType
-//@attr #[derive(Structural, PartialEq, Eq)]
+//@attr #[derive(Structural, PartialEq, Eq, Clone, Copy)]
 //@end
 impl StreamType {
 //@extract h3/src/proto/stream.rs :: - :: constmacro stream_types
